@@ -19,6 +19,7 @@ import (
 	"sort"
 	"strconv"
 	"strings"
+	"sync"
 	"sync/atomic"
 	"time"
 
@@ -86,7 +87,9 @@ type Event struct {
 	Err  string                 `json:"err"`
 	Out  []int                  `json:"out"`
 	Cand []string               `json:"cand"`
-	St   *State                 `json:"st"`
+	Partial bool                `json:"partial"`
+	X    map[string]interface{} `json:"x"`
+	St   interface{}            `json:"st"`
 }
 
 type foldOps struct{}
@@ -165,8 +168,22 @@ func (d *drv) project() *State {
 }
 
 func (d *drv) emit(ev string, a map[string]interface{}, err error, out []int, cand []string) {
+	d.emitX(ev, a, err, out, cand, false, nil)
+}
+
+// emitX: partial = the record is one of several concurrent calls; no state projection
+// is attached (the burst's closing record carries it)
+func (d *drv) emitX(ev string, a map[string]interface{}, err error, out []int, cand []string, partial bool, extra map[string]interface{}) {
 	d.seq++
-	e := Event{T: d.t, Seq: d.seq, Ev: ev, A: a, Res: "ok", Out: out, Cand: cand, St: d.project()}
+	e := Event{T: d.t, Seq: d.seq, Ev: ev, A: a, Res: "ok", Out: out, Cand: cand, Partial: partial, X: extra}
+	if e.X == nil {
+		e.X = map[string]interface{}{}
+	}
+	if !partial {
+		e.St = d.project()
+	} else {
+		e.St = map[string]interface{}{"chain": []string{}, "mode": ""}
+	}
 	if e.Out == nil {
 		e.Out = []int{}
 	}
@@ -325,6 +342,92 @@ func (d *drv) exec1(op Op) {
 	case "Reload":
 		err := s.Reload()
 		d.emit("Reload", nil, err, nil, nil)
+	case "Burst":
+		// op.N concurrent writers, each writing its own sector range once per round, while a
+		// poller reads the revision counter the way the REST info handler does
+		type wr struct{ s0, n int64; v int }
+		var ws []wr
+		ns := d.size() * rawfs.SPB
+		k := int64(op.N)
+		if k > ns {
+			k = ns
+		}
+		rounds := 6
+		for r := 0; r < rounds; r++ {
+			for g := int64(0); g < k; g++ {
+				d.nw++
+				ws = append(ws, wr{g * (ns / k), 1, 1 + (d.nw-1)%250})
+			}
+		}
+		errs := make([]error, len(ws))
+		stop := make(chan struct{})
+		backwards := 0
+		var pwg sync.WaitGroup
+		pwg.Add(1)
+		go func() {
+			defer pwg.Done()
+			last := int64(-1)
+			for {
+				select {
+				case <-stop:
+					return
+				default:
+				}
+				if r := s.Replica(); r != nil {
+					c := r.GetRevisionCounter()
+					if c < last {
+						backwards++
+					}
+					last = c
+				}
+			}
+		}()
+		var wg sync.WaitGroup
+		for g := int64(0); g < k; g++ {
+			wg.Add(1)
+			go func(g int64) {
+				defer wg.Done()
+				for r := 0; r < rounds; r++ {
+					i := r*int(k) + int(g)
+					_, errs[i] = s.WriteAt(fill(ws[i].n, ws[i].v), ws[i].s0*rawfs.SectorSize)
+				}
+			}(g)
+		}
+		wg.Wait()
+		close(stop)
+		pwg.Wait()
+		// per-sector order is the program order of its writer: log writer by writer
+		for g := int64(0); g < k; g++ {
+			for r := 0; r < rounds; r++ {
+				i := r*int(k) + int(g)
+				d.emitX("Write", map[string]interface{}{"s0": ws[i].s0, "n": ws[i].n, "v": ws[i].v}, errs[i], nil, nil, true, nil)
+			}
+		}
+		d.emitX("BurstEnd", map[string]interface{}{"writers": k, "rounds": rounds}, nil, nil, nil, false,
+			map[string]interface{}{"backwards": backwards})
+	case "OpenRace":
+		// two open requests arrive while a reader holds the server lock
+		s.RLock()
+		res := make(chan error, 2)
+		for i := 0; i < 2; i++ {
+			go func() { res <- s.Open() }()
+		}
+		time.Sleep(30 * time.Millisecond)
+		s.RUnlock()
+		oks := 0
+		var last error
+		for i := 0; i < 2; i++ {
+			if err := <-res; err == nil {
+				oks++
+			} else {
+				last = err
+			}
+		}
+		var err error
+		if oks == 0 {
+			err = last
+		}
+		d.emitX("Open", nil, err, nil, nil, false, map[string]interface{}{"oks": oks})
 	case "SetPreload":
 		err := s.SetPreload(op.P)
 		d.emit("SetPreload", map[string]interface{}{"p": op.P}, err, nil, nil)
@@ -516,7 +619,11 @@ func (d *drv) runGenerated(id int, n int, profile string) error {
 				continue
 			}
 			do(Op{Ev: "SetPreload", P: rng.Intn(2) == 0})
-			do(Op{Ev: "Open"})
+			if rng.Intn(4) == 0 {
+				do(Op{Ev: "OpenRace"})
+			} else {
+				do(Op{Ev: "Open"})
+			}
 			if rng.Intn(8) != 0 {
 				do(Op{Ev: "SetMode", Mode: "RW"})
 			}
@@ -530,6 +637,8 @@ func (d *drv) runGenerated(id int, n int, profile string) error {
 		snaps := d.snaps()
 		k := pick(rng, profile)
 		switch {
+		case k < 30 && rng.Intn(10) == 0:
+			do(Op{Ev: "Burst", N: int64(2 + rng.Intn(3))})
 		case k < 30:
 			do(d.genWrite(profile == "multiblock" && rng.Intn(2) == 0))
 		case k < 38:
@@ -626,7 +735,7 @@ func (d *drv) runGenerated(id int, n int, profile string) error {
 				do(Op{Ev: "Resize", NB: sz})
 			default:
 				if sz < 16 {
-					do(Op{Ev: "Resize", NB: sz + 1 + int64(rng.Intn(2))})
+					do(Op{Ev: "Resize", NB: min64(16, sz+1+int64(rng.Intn(2)))})
 				}
 			}
 		case k < 90: // close (+ reopen next round)
